@@ -164,7 +164,9 @@ def bag(F, b):
                     # `Self { field: v, ..self }` in a by-value setter is a field store (what is stored is decided by TR2 / OPT)
                     if b['argc'] >= 1 and F.types[b['locals'][1]].get('p') == rv['ak'][4:].rsplit('::', 1)[0] and any(o == ('f', ('param', 1), str(i)) for i, o in enumerate(ots)):
                         continue
-                ev[('AGGR', ak, depth, ctx_of(bi), ())] += 1
+                # what is wrapped / stored: `Ok(x)` with x taken from another list, or swapped endpoints, is another program
+                asig = tuple(argsig(pv.of_operand(o)) for o in rv['ops']) if rv['ops'] and (ak in ('std::option::Option::Some', 'std::result::Result::Ok') or ak.startswith('F::')) else ()   # (Err payloads: compared as error sets, SIB-SEM)
+                ev[('AGGR', ak, depth, ctx_of(bi), asig)] += 1
             elif s['dst']['l'] == 0 and not s['dst']['p'] and rv['k'] == 'use' and rv['ops'][0]['k'] == 'const':
                 ev[('RET', rv['ops'][0]['v'], depth, ctx_of(bi), ())] += 1
             elif rv['k'] == 'binop' and rv['op'] in ('Add', 'Sub', 'AddWithOverflow', 'SubWithOverflow', 'Mul', 'MulWithOverflow', 'Eq', 'Ne', 'Lt', 'Le', 'Gt', 'Ge'):
